@@ -211,6 +211,35 @@ def run(pid, tier):
     except Exception as e:
         traces.append([{"ev": "cfg", "words": [], "reserved": [], "clauses": CLAUSES}, {"ev": "exc", "what": "secret stage: %r" % (e,)}])
         meta.append({"cfg": {"stage": "secrets"}, "texts": [None, ("secret-stage", "EXC")]})
+    # the same through the command line: -r words with capitals reach both stages as written (with and without -w)
+    import subprocess
+    cb = tlc.subdir("c10cli")
+    cl_lines = ["password interface", "enable secret MyCorpkit", 'key "plain"', "snmp-server community PublicRO RO", "hostname kitten-1 MyCorpkit PublicRO",
+                "username bob password permit", "tacacs-server key Corp-RO", "description PUBLICRO publicro mycorpkit"]
+    with open(os.path.join(cb, "in.cfg"), "w") as fh:
+        fh.write("\n".join(cl_lines) + "\n")
+    for vi, wopt in enumerate((["-w", "kitten"], [])):
+        resv = ["MyCorpkit", "plain", "PublicRO", "Corp-RO"]
+        outp = os.path.join(cb, "out%d.cfg" % vi)
+        p = subprocess.run([sys.executable, "-m", "netconan.netconan", "-p", "-s", "s", "-r", ",".join(resv), "-i", os.path.join(cb, "in.cfg"), "-o", outp] + wopt,
+                           env=dict(os.environ, PYTHONPATH=common.REPO), cwd=cb, stdout=subprocess.PIPE, stderr=subprocess.PIPE, text=True)
+        words = ["kitten"] if wopt else []
+        ev = [{"ev": "cfg", "words": [cps(w) for w in words], "reserved": [cps(w) for w in ["interface", "permit", "description"] + resv], "clauses": CLAUSES}]
+        texts = [None]
+        for w in words:
+            from netconan.sensitive_item_removal import SensitiveWordAnonymizer
+            pw = SensitiveWordAnonymizer([w], "s", []).anonymize(w)
+            ev.append({"ev": "learn", "text": cps(w), "pseudo": cps(pw)})
+            texts.append(("command-line", "learn %r -> %r" % (w, pw)))
+        if p.returncode != 0 or not os.path.isfile(outp):
+            ev.append({"ev": "exc", "what": "main rc=%s %s" % (p.returncode, p.stderr[-300:])})
+            texts.append(("command-line", "EXC"))
+        else:
+            for ln, o in zip(cl_lines, open(outp).read().split("\n")):
+                ev.append({"ev": "line", "in": cps(ln), "out": cps(o)})
+                texts.append(("command-line", "%r -> %r" % (ln, o)))
+        traces.append(ev)
+        meta.append({"cfg": {"words": words, "reserved": resv, "salt": "s", "stage": "command line -p -r" + (" -w" if wopt else "")}, "texts": texts})
     # the repository's own tests re-run under the recorder: every SensitiveWordAnonymizer.anonymize call they make
     import c_suite
     st, sm = c_suite.words_traces(CLAUSES)
